@@ -759,11 +759,13 @@ for _n, _k in list(AGGS.items()) + [("all", [])]:
 
 
 # the aggregate-interval units also decide the gaussian clauses of C02 (rows aligned with the estimates table, counted
-# votes inside the bounds) and C03 (floors, whole numbers): registered there under their own ids
+# votes inside the bounds), C03 (floors, whole numbers) and C10 (the bound of a group is a function of ITS OWN outstanding
+# rows and of calibration statistics of reporting units only -- the formula obligations -- and floor terms are combined
+# with the rows of their own group -- the alignment obligations): registered there under their own ids
 from pyvc.api import UNITS  # noqa: E402
 
 for _u in list(UNITS.get("C15", [])):
     if _u["name"].startswith("aggregate_intervals."):
-        for _p in ("C02", "C03"):
+        for _p in ("C02", "C03", "C10"):
             if not any(x["name"] == "gaussian." + _u["name"] for x in UNITS.get(_p, [])):
                 UNITS.setdefault(_p, []).append(dict(_u, prop=_p, name="gaussian." + _u["name"]))
